@@ -36,4 +36,13 @@ def jobs(tier, seed, prop):
             functions=fl, info=info, assumed=assumed, replay=make_replay(prop, "initial"),
             label="recovery block + initial checkpoint of constructCommon from any file-system state that satisfies the crash invariant"),
     ]
+    # G5 budget accounting on ghost counters
+    cfb = ContractFile("contracts/budget.c")
+    Rb = X.Rules()
+    bt, binfo = surrogate.emit_budget(Rb, cfb.loops()["sequential_loop"][0])
+    out.append(Job("budget.sequential", '#include "tsg_shim.h"\nint tsg_exc;\n#line 1 "/verif/contracts/budget.c"\n' + cfb.text(("text",)) + bt + cfb.text(("harness",)), "h_budget",
+                   loop_contracts=True, timeout=300, functions=["%s:%d %s" % (f["file"], f["line"], f["name"]) for f in binfo["functions"]], info=binfo,
+                   assumed=["CandidateManager::next(b) returns at most b points (F16, proved in candman.next)", "complete.load / complete.add / candidates(grid) act on the counts as stated in contracts/budget.c",
+                            "the recovered state itself is within the budget"],
+                   label="constructCommon budget accounting (sequential mode): total samples <= max_num_points, recovered samples counted, candidates refreshed only after loading"))
     return out
